@@ -198,6 +198,26 @@ func (p c05) Run(c *core.Ctx) {
 		c.Fail("", "start of a satisfiable scenario did not succeed: "+core.Short(r.OutcomeDetail(), 400), failDetail(sc, r, nil))
 		return
 	}
+	if c.Rng.Intn(3) == 0 {
+		// lookups under the type name of components that carry a custom name (nothing is registered under it): whatever
+		// they answer, nobody's lifecycle runs again
+		unnamedType := map[int]bool{}
+		for i := range sc.Nodes {
+			if sc.Nodes[i].Name == "" {
+				unnamedType[sc.Nodes[i].Type] = true
+			}
+		}
+		for i := range sc.Nodes {
+			if ti := world.Palette[sc.Nodes[i].Type]; sc.Nodes[i].Name != "" && !unnamedType[sc.Nodes[i].Type] && !ti.Lazy {
+				r.Guard(func() { r.App.GetComponentByName(ti.DefaultName) })
+				c.Count("lookups_under_unregistered_type_names", 1)
+			}
+		}
+		if r.Panic != nil || r.Diverge != nil {
+			c.Fail("", "lookup under a type name after the start: "+r.OutcomeDetail(), failDetail(sc, r, nil))
+			return
+		}
+	}
 	problems, stats := checkLifecycle(r, npp)
 	problems = append(problems, checkLifePPs(r, lifePPs, npp)...)
 	for _, nm := range prioLife {
